@@ -133,6 +133,20 @@ PREMISES = {
 }
 
 
+# premises that replay every path of a function and prove every obligation of these site kinds in it: the reviewed count of
+# such an entry is not a limit (a refactoring may write one more slice expression; the premise then has one more
+# obligation to prove, and fails if it cannot)
+_LIN_KINDS = ("assert|Overflow:Add:usize", "assert|Overflow:Sub:usize", "slice-index|", "vec-index|",
+              "slice-op|core::slice::copy_from_slice", "slice-op|core::slice::split_at")
+COVERED_BY_PREMISE = {
+    ("reassembler invariant (C16 R16.4)", "stun_agent::StunPacketDecoder::decode"): _LIN_KINDS,
+    ("attribute iterator invariant (C03 R3.5)", "<stun_rs::raw::RawAttributesIter<'a> as fallible_iterator::FallibleIterator>::next"): _LIN_KINDS,
+    ("attribute iterator invariant (C03 R3.5)", "stun_rs::context::MessageDecoder::decode"): _LIN_KINDS,
+    ("attribute iterator invariant (C03 R3.5)", "stun_rs::raw::get_input_text"): _LIN_KINDS,
+    ("encode loop invariant (C14 R14.6)", "stun_rs::context::MessageEncoder::encode"): _LIN_KINDS,
+}
+
+
 def check_premises(ctx, prog, rule, required):
     """every budget entry that was used and names a premise gets that premise evaluated in the same check"""
     prule = rule + "p"
@@ -152,7 +166,7 @@ def check_premises(ctx, prog, rule, required):
 
 
 def _std_upper(name):
-    m = re.match(r"num::from_be_bytes\(array\((.*)\)\)$", name)
+    m = re.match(r"(?:num|u\d+)::from_be_bytes\(array\((.*)\)\)$", name)
     if m:
         k = m.group(1).count(", ") + 1
         if k in (1, 2, 4):
@@ -299,6 +313,123 @@ def prove_function(prog, b):
     return res
 
 
+def _fn_value_uses(prog, key):
+    """is the function used as a value (function pointer / passed to a combinator) anywhere in the workspace?"""
+    def walk(x, skip_func=False):
+        if isinstance(x, dict):
+            fn = x.get("fn")
+            if isinstance(fn, dict) and key in (fn.get("rkey"), fn.get("key")):
+                return True
+            return any(walk(v) for k, v in x.items() if not (skip_func and k == "func"))
+        if isinstance(x, list):
+            return any(walk(v) for v in x)
+        return False
+    for b in prog.bodies.values():
+        for blk in b.blocks:
+            if walk(blk.get("stmts", [])) or walk(blk["term"], skip_func=True):
+                return True
+    return False
+
+
+_ctx_proofs = {}
+
+
+def _premise_of_callers(prog, b, depth=0):
+    """the premise (COVERED_BY_PREMISE) shared by every caller of a new non-public helper, following chains of such helpers"""
+    from ..absint import _known_functions
+    known = _known_functions()
+    if not known or b.path in known or b.is_public or b.kind not in ("Fn", "AssocFn") or depth > 4 or _fn_value_uses(prog, b.key):
+        return None
+    prems = set()
+    n = 0
+    for cb in prog.bodies.values():
+        if cb.key == b.key:
+            continue
+        if any(x.key == b.key for cs in cb.calls() for x in prog.callees(cs)):
+            n += 1
+            ps = {pr for (pr, fnp) in COVERED_BY_PREMISE if fnp == cb.path}
+            if not ps:
+                p2 = _premise_of_callers(prog, cb, depth + 1)
+                ps = {p2} if p2 else set()
+            if len(ps) != 1:
+                return None
+            prems |= ps
+    return prems.pop() if n and len(prems) == 1 else None
+
+
+def prove_in_callers(prog, b):
+    """third discharge route, for a helper a refactoring introduced (not in anchors/known_functions.json) that is not
+    public: its panic sites are safe only under its callers' checks, so each caller is explored with the helper inlined and
+    every bounds / overflow obligation that originates inside the helper is proved from the facts the caller established
+    before the call.  -> (ok, obligations, why)"""
+    k = (id(prog), b.key)
+    if k in _ctx_proofs:
+        return _ctx_proofs[k]
+    from .. import client as C
+    from .. import linproof as LP
+    from ..absint import _known_functions
+    res = (False, 0, "not attempted")
+    try:
+        known = _known_functions()
+        sites = panics.sites_of(b)
+        if not known or b.path in known or b.crate not in ("stun_rs", "stun_agent"):
+            res = (False, 0, "not a new helper")
+        elif b.is_public or b.kind not in ("Fn", "AssocFn"):
+            res = (False, 0, "public or not a plain function: callers unknown")
+        elif any(s_.kind not in PROVABLE_KINDS for s_ in sites):
+            res = (False, 0, "has sites of kinds %s" % sorted({s_.kind for s_ in sites} - PROVABLE_KINDS))
+        elif _fn_value_uses(prog, b.key):
+            res = (False, 0, "used as a function value")
+        else:
+            callers = {}
+            for cb in prog.bodies.values():
+                for cs in cb.calls():
+                    if any(x.key == b.key for x in prog.callees(cs)):
+                        callers[cb.key] = cb
+            callers.pop(b.key, None)
+            if not callers:
+                res = (False, 0, "no caller in the workspace")
+            else:
+                import time as _t
+                t_end = _t.time() + 30
+                n = 0
+                failed = []
+                for cb in callers.values():
+                    if cb.kind == "Closure" or len(cb.blocks) > 120:
+                        failed.append("caller %s is a closure or too large" % cb.path)
+                        break
+                    step = [r"\{closure"] + _safe_helpers(prog) + ["^" + re.escape(cb.path) + "$"]
+                    paths, info = C.explore_fn(prog, cb.path, "x", step, concrete_iters=True, log_asserts=True, memo_shared=True, max_paths=400)
+                    if info["bounded"] or not paths:
+                        failed.append("exploration of caller %s incomplete" % cb.path)
+                        break
+                    n0 = n
+                    for pa in paths:
+                        if _t.time() > t_end:
+                            failed.append("time budget exceeded")
+                            break
+                        if any("widened" in repr(e) for e in pa.log if e[0] in ("assert", "call") and LP.origin_of(e) == b.path):
+                            failed.append("loop with an unknown bound (widened counter)")
+                            break
+                        w = LP.Walker(pa, [], contracts=_std_contracts(), upper=_std_upper)
+                        w.only = {b.path}
+                        w.run()
+                        n += w.n_only
+                        failed.extend("in caller %s: %s" % (C.short(cb.path), f) for f in w.failed)
+                        if failed:
+                            break
+                    if failed:
+                        break
+                    if n == n0:
+                        failed.append("caller %s never reaches the helper's sites" % cb.path)
+                        break
+                res = (not failed and n > 0, n, "; ".join(failed[:2]) or "%d linear obligations in %d caller(s)" % (n, len(callers)))
+    except Exception as e:      # never take the check down: not proved
+        res = (False, 0, "prover error %r" % (e,))
+    _ctx_proofs[k] = res
+    return res
+
+
 def check_sites(ctx, prog, rule, prop, seen, config_label="", exclude_fn=None, only_kinds=None):
     """discharge every site of every reachable body or count it against the reviewed budget.
     returns statistics."""
@@ -339,12 +470,35 @@ def check_sites(ctx, prog, rule, prop, seen, config_label="", exclude_fn=None, o
                     n_dis += len(g["undischarged"])
                     g["unrolled"] = "%d site(s) discharged by the unrolled linear proof of the function (%s)" % (len(g["undischarged"]), why)
                     g["undischarged"] = []
+    # a non-public helper split off a function whose premise replays it whole (the helper is inlined there): the premise
+    # covers the helper's sites of the linear kinds as well
+    for fnb in {g["fn"].key: g["fn"] for g in groups.values() if g["undischarged"]}.values():
+        prem = _premise_of_callers(prog, fnb)
+        if prem is None:
+            continue
+        for (fnp, sk), g in groups.items():
+            if g["fn"].key == fnb.key and g["undischarged"] and any(sk.startswith(k) for k in _LIN_KINDS):
+                n_bud += len(g["undischarged"])
+                required.add(prem)
+                g["unrolled"] = "%d site(s) covered by the premise `%s` of the only caller(s), which replays this helper inline" % (len(g["undischarged"]), prem)
+                g["undischarged"] = []
+    # third route: a non-public helper introduced by a refactoring, proved in the context of each of its callers
+    for fnb in {g["fn"].key: g["fn"] for g in groups.values() if g["undischarged"]}.values():
+        ok, nobl, why = prove_in_callers(prog, fnb)
+        if ok:
+            for (fnp, sk), g in groups.items():
+                if g["fn"].key == fnb.key and g["undischarged"]:
+                    n_dis += len(g["undischarged"])
+                    g["unrolled"] = "%d site(s) discharged in the context of the callers (%s)" % (len(g["undischarged"]), why)
+                    g["undischarged"] = []
     for (fnp, sk), g in sorted(groups.items()):
         und = g["undischarged"]
         total = len(g["sites"])
         b = g["fn"]
         be = budget.get((fnp, sk))
         allowed = be["max"] if be is not None and (not be.get("props") or prop in be["props"]) else 0
+        if allowed and und and any(sk.startswith(k) for k in COVERED_BY_PREMISE.get((be.get("requires"), fnp), ())):
+            allowed = max(allowed, len(und))
         if be is not None:
             used.add((fnp, sk))
         n_bud += min(len(und), allowed)
